@@ -5,6 +5,7 @@ timeout taken as INFINITE (the shim blocks until a descriptor is ready), so a
 missing wake-up shows as a quiescent state with work left.  TLC judges every
 recorded trace with the monitor clauses P05_* of spec/Pipeline.tla."""
 from checks import chan_common as cc
+from wv import h_channel
 from checks import chan_model
 
 LEVEL = "model_checking"
@@ -30,6 +31,14 @@ def scenarios(thorough):
         out.append(cc.mk([{"k": 1, "kind": "http10"}], use_poll=use_poll, room=0, extra_client=slow, name="http10 close-delimited slow %s" % tag,
                          apps={1: {"chunks": [10, 10], "cl": "none"}}))
     out.append(cc.mk([P(1), {"k": 2, "kind": "expect"}], lookahead=1, split="joinheads", waits=(2,), room=0, read_before_await=True, name="expect waits, slow"))
+    # degenerate marks: a drain that ends exactly on the mark must release the producer
+    out.append(cc.mk([P(1)], room=40, extra_client=[["read", 30], ["read", 45], ["readall"]], apps={1: {"chunks": [30, 30, 30], "cl": "none"}},
+                     adj={"outbuf_high_watermark": 0, "send_bytes": 1}, name="producer over watermark 0"))
+    out.append(cc.mk([P(1)], room=0, extra_client=[["readall_after_block", 1]], apps={1: {"chunks": [200, 200], "write": True, "cl": "none"}},
+                     adj={"outbuf_high_watermark": 100, "send_bytes": 300}, name="send_bytes above the watermark"))
+    # two connections whose requests need each other (each waits until the other is being executed): both must get a worker
+    other = {"requests": [{"k": 2, "kind": "plain"}], "client": [["connect"], ["send", b"".join(h_channel.request_bytes({"k": 2, "kind": "plain"}))]], "room": None}
+    out.append(cc.mk([P(1)], workers=2, second=other, apps={1: {"chunks": ["peer", 3]}, 2: {"chunks": ["peer", 3]}}, name="two connections, requests that wait for each other, 2 workers"))
     out.append(cc.mk([P(1), P(2), P(3)], lookahead=0, workers=1, split="each", name="3plain each la=0"))
     out.append(cc.mk([P(1), P(2), {"k": 3, "kind": "close"}], lookahead=0, workers=2, split="each", name="2plain then close, each la=0 (keep-alive connection, several wake-ups)"))
     out.append(cc.mk([P(1), P(2)], lookahead=2, workers=2, room=0, extra_client=slow, apps={1: {"cl": "larger"}}, name="undelimitable then plain la=2 slow"))
